@@ -909,4 +909,67 @@ theorem splitOffBack_kept_no_select (decls : List Comp) (p : List Tr) (out : Lis
   unfold splitOffBack
   exact scanRev_kept decls p.reverse _ (by intro u hu; simp at hu)
 
+
+/-! ### the scan of the real splitter (with requirements and `can_materialize`) refines the scan over the split table alone -/
+
+/-- the transforms the scan passes, in scan order (last transform of the pipeline first) -/
+def passedRev (decls : List Comp) : List Tr → Scan → List Tr
+  | [], _ => []
+  | t :: rest, s =>
+    match scanStep decls s t with
+    | (some s', _) => t :: passedRev decls rest s'
+    | (none, _) => []
+
+theorem scanStep_some_not_split (decls : List Comp) (s s' x : Scan) (t : Tr) (h : scanStep decls s t = (some s', x)) :
+    splitRequired t.kind s.following = false := by
+  unfold scanStep at h
+  split at h
+  · simp at h
+  · rename_i hn; simpa using hn
+
+theorem tableScan_ends_with_acc (l : List Kind) (f acc : List Kind) : ∃ pre, Model.Split.scan l f acc = pre ++ acc := by
+  induction l generalizing f acc with
+  | nil => exact ⟨[], rfl⟩
+  | cons k rest ih =>
+    unfold Model.Split.scan
+    split
+    · exact ⟨[], rfl⟩
+    · obtain ⟨pre, h⟩ := ih (record k f) (k :: acc)
+      exact ⟨pre ++ [k], by rw [h]; simp⟩
+
+/-- whatever the requirements and the compute declarations: the kinds the real scan passes are a SUFFIX of what the scan
+over the split table keeps (the real scan may stop earlier - when a compute cannot be materialised - never later) -/
+theorem scan_refines_tableScan (decls : List Comp) (rev : List Tr) (s : Scan) (acc : List Kind) :
+    ∃ pre, Model.Split.scan (rev.map Tr.kind) s.following acc = pre ++ (passedRev decls rev s).reverse.map Tr.kind ++ acc := by
+  induction rev generalizing s acc with
+  | nil => exact ⟨[], by simp [Model.Split.scan, passedRev]⟩
+  | cons t rest ih =>
+    unfold passedRev
+    cases hs : scanStep decls s t with
+    | mk o x =>
+      cases o with
+      | none =>
+        obtain ⟨pre, h⟩ := tableScan_ends_with_acc ((t :: rest).map Tr.kind) s.following acc
+        exact ⟨pre, by simpa using h⟩
+      | some s' =>
+        have hns := scanStep_some_not_split decls s s' x t hs
+        have hf := (scanStep_some decls s s' x t hs).1
+        obtain ⟨pre, h⟩ := ih s' (t.kind :: acc)
+        refine ⟨pre, ?_⟩
+        simp only [List.map_cons, Model.Split.scan, hns, Bool.false_eq_true, if_false]
+        rw [← hf, h]
+        simp
+
+theorem scanRev_splits (decls : List Comp) (rev : List Tr) (s : Scan) :
+    rev = passedRev decls rev s ++ (scanRev decls rev s).2.reverse := by
+  induction rev generalizing s with
+  | nil => simp [passedRev, scanRev]
+  | cons t rest ih =>
+    unfold passedRev scanRev
+    cases hs : scanStep decls s t with
+    | mk o x =>
+      cases o with
+      | none => simp
+      | some s' => simp only [List.cons_append, List.cons.injEq, true_and]; exact ih s'
+
 end Lemmas.Anchor
